@@ -228,6 +228,37 @@ def check(run):
                 run.nontrivial("commit-during-read/%s/%s/%s" % (state, who, op))
                 if who == "fresh handle":
                     s.close()
+    # two transactions of one writer in a row, each parked in RESERVED with its journal on disk (synchronous=OFF), a read of the
+    # long-lived handle inside each and none in between: the second read sees the first transaction's commit (the journal
+    # file of the second transaction is the same file - TRUNCATE / PERSIST - or at least has the same name)
+    dist["back_to_back"] = {}
+    for jmode in ("DELETE", "TRUNCATE", "PERSIST"):
+        run.count()
+        w = sqlite3.connect(path, timeout=0, isolation_level=None)
+        w.execute("PRAGMA journal_mode=%s" % jmode); w.execute("PRAGMA synchronous=OFF")
+        got = []
+        for txn in (1, 2):
+            w.execute("BEGIN IMMEDIATE")
+            w.execute("UPDATE t SET b = ? WHERE rowid IN (11, 12)", ("UNCOMMITTED-%s-%d" % (jmode, txn),))
+            c = sqlite3.connect(path, isolation_level=None)     # a plain reader: what is committed right now
+            committed = c.execute("SELECT a, b FROM t ORDER BY rowid").fetchall()
+            c.close()
+            out = long_lived.cmd("select t 0 a,b")
+            d = hl.same_rows(out, committed) or (None if any(l == "end ok" for l in out) else "ended with %s" % out[-2:])
+            got.append(d or "ok")
+            if d:
+                run.violation("journal_mode=%s, writer's transaction %d parked in RESERVED with its journal on disk, long-lived handle, select t: %s" % (jmode, txn, d),
+                              {"kind": "reader-vs-writer", "db": path, "scenario": "synchronous=OFF writer: BEGIN IMMEDIATE; UPDATE; [read]; COMMIT (no read); BEGIN IMMEDIATE; UPDATE; [read]", "journal_mode": jmode, "transaction": txn, "impl": out[:3] + out[-2:]})
+                break
+            # the transaction commits something else than what it showed so far
+            w.execute("UPDATE t SET b = ? WHERE rowid IN (11, 12)", ("committed-%s-%d" % (jmode, txn),))
+            w.execute("COMMIT")
+        dist["back_to_back"][jmode] = got
+        try:
+            w.execute("PRAGMA journal_mode=DELETE")
+        except sqlite3.OperationalError:
+            pass
+        w.close()
     long_lived.close(); model.close()
     run.cov["traces_validated_against_impl"] = dist["reads"]
     run.cov["rule"] = ("a real SQLite connection (python sqlite3, another process than the reader) is parked in UNLOCKED, SHARED (open cursor), RESERVED (uncommitted changes in its cache), RESERVED "
